@@ -1,6 +1,7 @@
 import I18n.Lemmas.DomainsGenerated
 import I18n.Lemmas.GettextHdrGenerated
 import I18n.Lemmas.HdrChkGenerated
+import I18n.Lemmas.HdrMimeGenerated
 import I18n.Props.C15
 /-!
 # C15 — the tie by translation: the header checks REGENERATED from the source are the model
@@ -167,7 +168,48 @@ theorem comment_search_spec_generated (x : Ext) (tmpl : Bool) (header : Str) (t 
     refine ⟨_, rfl, List.mem_filterMap.2 ⟨line, hl, ?_⟩⟩
     rw [if_pos ((C15.comment_search_spec x.db tmpl line).2 hit)]; rfl
 
+/-! ## `Checker.check_mime` (with the charset fragment: `lib.encodings`, `lib.ling` calls = C20's model functions) -/
+
+/-- `check_mime(ctx)` as regenerated — MIME-Version, Content-Transfer-Encoding, the Content-Type loop with its early `return`, the
+    `try / except EncodingLookupError / else` of the charset fragment, `encodings` and `ctx.encoding` — returns exactly the model's tag
+    calls (in order) and `ctx.encoding`, with the model's `CharsetCheck` parameter being C20's `Charset.checkCharset env · is_template
+    language`; it raises iff the model crashes (which exception is forgotten: `erase`).  `hrt`: the names `propose_portable_encoding`
+    can return survive the passage `str` ↔ code points (true of the live table: `generated_check_mime_eq_model_live`). -/
+theorem generated_check_mime_eq_model (x : Ext) (env : Charset.Env) (m : Meta) (tmpl : Bool)
+    (lang : Option (Option (List (List Nat)))) (out : List TagCall)
+    (hrt : ∀ e n, Charset.propose env.tbl env.c2e env.lookup e = .ok (some n) → toName (ofName n) = n) :
+    I18n.Hdr.Gen.erase (Generated.HdrChk.check_mime x env m tmpl lang out) =
+      match checkMime x.db (fun n => Charset.checkCharset env n tmpl lang) m with
+      | .ok o => .ok (out ++ o.tags, o.encoding)
+      | .error () => .error () :=
+  I18n.Hdr.Gen.check_mime_eq x env m tmpl lang out hrt
+
+theorem generated_check_mime_eq_model_live (x : Ext) (env : Charset.Env) (hc2e : env.c2e = Generated.Charset.pycodecToEncoding)
+    (m : Meta) (tmpl : Bool) (lang : Option (Option (List (List Nat)))) (out : List TagCall) :
+    I18n.Hdr.Gen.erase (Generated.HdrChk.check_mime x env m tmpl lang out) =
+      match checkMime x.db (fun n => Charset.checkCharset env n tmpl lang) m with
+      | .ok o => .ok (out ++ o.tags, o.encoding)
+      | .error () => .error () :=
+  I18n.Hdr.Gen.check_mime_eq x env m tmpl lang out (I18n.Hdr.Gen.hrt_live env hc2e)
+
+/-- **hdr_nocrash** for the MIME stage, of the regenerated method: with the live tables and codecs that behave (C20's `EncodeOk`),
+    the regenerated `check_mime` returns -/
+theorem check_mime_nocrash_generated (x : Ext) (env : Charset.Env) (characters : Option (Option (List (List Nat))))
+    (htbl : env.tbl = Generated.Charset.portableEncodings) (hc2e : env.c2e = Generated.Charset.pycodecToEncoding)
+    (henc : ∀ enc chars, characters = some (some chars) → Charset.EncodeOk (env.encode enc) chars)
+    (m : Meta) (tmpl : Bool) (out : List TagCall) :
+    ∃ r, Generated.HdrChk.check_mime x env m tmpl characters out = .ok r := by
+  have h := generated_check_mime_eq_model_live x env hc2e m tmpl characters out
+  have hm : ∃ o, checkMime x.db (fun n => Charset.checkCharset env n tmpl characters) m = .ok o :=
+    checkMime_ok x.db _ (fun n => I18n.Props.C20.check_total env n tmpl characters htbl hc2e henc) m
+  obtain ⟨o, ho⟩ := hm
+  rw [ho] at h
+  cases hg : Generated.HdrChk.check_mime x env m tmpl characters out with
+  | ok r => exact ⟨r, rfl⟩
+  | error e => rw [hg] at h; cases h
+
 /-! Non-vacuity -/
+
 
 
 
